@@ -311,7 +311,17 @@ def redirects(prog, an, rep):
     g = need_func(an, GWF + '.handle_parent_pull_request')
     pj = [x for x in prog.calls_in(g)
           if prog.callee(g, x) == ('class', 'bert_e.job.PullRequestJob')]
-    ok = len(pj) == 1 and 'get_pull_request(int(parent_id))' in src(pj[0])
+    # the id looked up is the one parsed out of the child description (or
+    # the child's own id when it is not a child): whatever the local is
+    # called
+    ok = False
+    if len(pj) == 1:
+        m = re.search(r'get_pull_request\(int\((\w+)\)\)', src(pj[0]))
+        if m:
+            vals = [v for _, v in stores_to(g, m.group(1))]
+            ok = any(v is None for v in vals) and any(
+                v is not None and src(v) == g.params[1] + '.id'
+                for v in vals) and len(vals) == 2
     rep.check(ok, R, g.qname + ': evaluates the parent pull request',
               g.where(), 'builds %s' % [src(x) for x in pj])
     h = need_func(an, GWF + '.handle_commit')
